@@ -198,6 +198,8 @@ structure OpShape {σ} (route : B) (o : Operation σ) : Prop where
   respsNe : o.resps ≠ []
   resps : ∀ r ∈ o.resps, validResponseCode r.code = true ∧ r.description ≠ []
   styles : ∀ p ∈ o.params, styleOK p.loc p.style = true
+  /-- a media type never has both `example` and `examples` -/
+  exX : ∀ r ∈ o.resps, ¬ (r.hasExample = true ∧ r.exampleNames ≠ [])
 
 theorem pathParams_ok {path : B} (hv : validatePath path = true) : ∀ p ∈ extractPathParams path, ParamOK (σ := IR) p := by
   intro p hp
@@ -330,11 +332,15 @@ theorem buildOperation_shape (env : Env) (henv : EnvNamed env) (op : OpIn) (st :
     · simp only [Except.ok.injEq, Prod.mk.injEq] at h
       obtain ⟨rfl, _, _⟩ := h
       obtain ⟨p1, p2, p3⟩ := opParams_shape env none op.path st hv (fun m hm => by cases hm)
-      refine ⟨p1, p2, p3, by simp [defaultResps], hdef, ?_⟩
-      intro p hp
-      simp only [extractPathParams, mem_map] at hp
-      obtain ⟨n, _, rfl⟩ := hp
-      simp [styleOK]
+      refine ⟨p1, p2, p3, by simp [defaultResps], hdef, ?_, ?_⟩
+      · intro p hp
+        simp only [extractPathParams, mem_map] at hp
+        obtain ⟨n, _, rfl⟩ := hp
+        simp [styleOK]
+      · intro r hr
+        simp only [defaultResps, mem_singleton] at hr
+        subst hr
+        simp
     · have hmd : ∀ m, op.req.bind (introspect env) = some m → ∀ ps ∈ m.params, SpecOK ps := by
         intro m hm
         cases hreq : op.req with
@@ -355,14 +361,24 @@ theorem buildOperation_shape (env : Env) (henv : EnvNamed env) (op : OpIn) (st :
         simp only [Except.ok.injEq, Prod.mk.injEq] at h
         obtain ⟨rfl, _, _⟩ := h
         obtain ⟨_, g2⟩ := genResps_shape env _ _ rr.1 rr.2 (by rw [heq])
-        refine ⟨p1, p2, p3, ?_, ?_, hst⟩
+        refine ⟨p1, p2, p3, ?_, ?_, hst, ?_⟩
         · simp only []
-          split
-          · simp [defaultResps]
-          next hne => intro e; rw [e] at hne; simp at hne
+          intro e
+          have hl := congrArg List.length e
+          simp only [attachEx, length_map, length_nil] at hl
+          split at hl
+          · simp [defaultResps] at hl
+          next hne => rw [length_eq_zero_iff] at hl; rw [hl] at hne; simp at hne
         · simp only []
-          split
-          · exact hdef
-          · exact g2
+          intro r' hr'
+          obtain ⟨r, hr, hc, hd, _, _⟩ := mem_attachEx hr'
+          rw [hc, hd]
+          split at hr
+          · exact hdef r hr
+          · exact g2 r hr
+        · simp only []
+          intro r' hr'
+          obtain ⟨_, _, _, _, _, hx⟩ := mem_attachEx hr'
+          exact hx
 
 end Rivaas.OpenAPI
